@@ -150,3 +150,10 @@ Lemma xlsx_views_tables_refuted :
     flat_map (@u_tables unit (list Z)) (xlsx_units (fun t => match t with [] => true | _ => false end) sheets)
     <> xlsx_tables sheets.
 Proof. exists [mkSheet [] []]. vm_compute. discriminate. Qed.
+
+(* exact-name member lookup: what is found is the requested name itself, and it is a member *)
+Lemma member_of_exact names p q : member_of names p = Some q -> q = p /\ In p names.
+Proof.
+  unfold member_of. destruct (mem_str p names) eqn:E; [|discriminate].
+  intro H. inversion H; subst. split; [reflexivity | apply mem_str_In; exact E].
+Qed.
